@@ -806,4 +806,50 @@ func evValueTree(o *h.Out, rc *h.Rng, ans func(string)) {
 	if nsd == 0 && new(big.Int).Add(sum, esum).Cmp(total) != 0 {
 		o.Violate("c02-sum-not-conserved", fmt.Sprintf("without self-destructs: balances %s + ETX value %s != %s before", sum, esum, total))
 	}
+	// a second transaction on the same state (as in one block): plain transfers to accounts of the tree, also to ones
+	// that destroyed themselves in the first transaction.  What a self-destructed account still held when the first
+	// transaction ended is gone for good: a later transfer must not bring it back.
+	env.sdb.Finalize(true)
+	env.evm.ETXCache = nil // (the direct evm.Call path of the first phase leaves its ETXs in the cache)
+	if !env.sdb.Exist(payer) {
+		env.sdb.CreateAccount(payer)
+	}
+	env.sdb.AddBalance(payer, big.NewInt(1_000_000_000))
+	env.evm.TxContext.GasPrice = price
+	sumAll := func() *big.Int {
+		t := new(big.Int).Set(env.sdb.GetBalance(payer))
+		for _, nd := range nodes {
+			t.Add(t, env.sdb.GetBalance(evContract(nd.addr)))
+		}
+		return t
+	}
+	for i, k := 0, 2+rc.Intn(4); i < k; i++ {
+		nd := nodes[rc.Intn(len(nodes))]
+		ta := evContract(nd.addr)
+		if len(env.sdb.GetCode(ta)) != 0 {
+			continue // still a contract: running it again is the first phase's business (refunds, further ETXs)
+		}
+		to := common.NewAddressFromData(&ta)
+		before, toBefore := sumAll(), new(big.Int).Set(env.sdb.GetBalance(ta))
+		v := big.NewInt(int64(1 + rc.Intn(50)))
+		msg := types.NewMessage(common.NewAddressFromData(&payer), &to, env.sdb.GetNonce(payer), v, 200_000, price, nil, types.AccessList{{Address: to}}, false)
+		res, err := core.ApplyMessage(env.evm, msg, new(types.GasPool).AddGas(200_000))
+		if err != nil {
+			o.Count("second-tx:not-applied")
+			continue
+		}
+		env.sdb.Finalize(true)
+		charge := new(big.Int).Mul(new(big.Int).SetUint64(res.UsedGas), price)
+		after := sumAll()
+		for _, x := range res.Etxs {
+			after.Add(after, x.Value())
+		}
+		if new(big.Int).Add(after, charge).Cmp(before) > 0 && os.Getenv("QVH_DEBUG") != "" {
+			fmt.Fprintln(os.Stderr, "DBG second tx: v", v, "used", res.UsedGas, "price", price, "charge", charge, "payer", env.sdb.GetBalance(payer), "failed", res.Failed(), res.Err, "etxs", len(res.Etxs), "refundctr", env.sdb.GetRefund())
+		}
+		if new(big.Int).Add(after, charge).Cmp(before) != 0 {
+			o.Violate("c02-later-transaction-creates-value", fmt.Sprintf("a transfer of %s to account %d (held %s before, %s after; failed=%v) in a second transaction: balances + gas charge went from %s to %s", v, nd.addr, toBefore, env.sdb.GetBalance(ta), res.Failed(), before, new(big.Int).Add(after, charge)))
+		}
+		o.Count("second-tx")
+	}
 }
